@@ -89,3 +89,58 @@ def deep_observation(c: Converter, curie_probes: list[str], uri_probes: list[str
 
 
 __all__ = ["curies", "Converter", "Record", "mk_record", "mk_records", "mk_converter", "dump_record", "dump_records", "call", "lookup_snapshot", "deep_observation", "trie_items"]
+
+
+def mk_incremental_queried(spec: dict, order, queries) -> Converter:
+    """Build the converter of ``spec`` incrementally, calling ``queries(converter)`` after every single mutation.
+
+    Records are added in ``order``; a record with synonyms is added as its bare canonical pair first and then completed by
+    add_record(merge=True) calls, one synonym at a time, so that every new string enters through the merge path too.
+    The interleaved queries make history-dependent state (result caches, lazily built indexes) observable: the final
+    converter must still answer like one built in one go."""
+    d = spec.get("delimiter", ":")
+    recs = spec["records"]
+    c = Converter([], delimiter=d)
+    queries(c)
+    for i in order:
+        r = recs[i]
+        c.add_record(mk_record({"prefix": r["prefix"], "uri_prefix": r["uri_prefix"], "pattern": r.get("pattern")}))
+        queries(c)
+        for syn in r["prefix_synonyms"]:
+            c.add_prefix(syn, r["uri_prefix"], merge=True)
+            queries(c)
+        for syn in r["uri_prefix_synonyms"]:
+            c.add_record(mk_record({"prefix": r["prefix"], "uri_prefix": syn}), merge=True)
+            queries(c)
+    return c
+
+
+def query_everything(c: Converter, strings, pairs=()) -> None:
+    """Call every scalar query method in default mode on every string / pair and ignore the answers (and exceptions).
+
+    Used between the mutations of mk_incremental_queried so that any result cache or lazily built index is populated
+    with answers that later mutations invalidate."""
+    import warnings
+
+    fns = [c.compress, c.expand, c.compress_or_standardize, c.expand_or_standardize, c.standardize_prefix, c.standardize_curie,
+           c.standardize_uri, c.expand_all, c.parse_curie, c.is_uri, c.is_curie, c.get_record,
+           lambda s: c.parse(s, strict=False), lambda s: c.parse_uri(s, return_none=True)]
+    with warnings.catch_warnings():
+        warnings.simplefilter("ignore")
+        for s in strings:
+            for fn in fns:
+                try:
+                    fn(s)
+                except Exception:  # noqa: BLE001
+                    pass
+        for p, i in pairs:
+            for fn in (c.expand_pair, c.expand_pair_all, c.format_curie):
+                try:
+                    fn(p, i)
+                except Exception:  # noqa: BLE001
+                    pass
+            try:
+                c.standardize_prefix(p)
+                c.get_record(p)
+            except Exception:  # noqa: BLE001
+                pass
